@@ -173,7 +173,8 @@ class GraphQLLocatedError(GraphQLResponseError):
             ),
             ("path", self.path if self.path is not None else None),
         )
-        return {k: v for k, v in kv if v}
+        # The message is required even when empty, other entries are optional.
+        return {k: v for k, v in kv if v or k == "message"}
 
 
 class InvalidValue(GraphQLLocatedError, ValueError):
